@@ -98,7 +98,7 @@ func c12Run(c c12Case) (*eng.Fail, bool) {
 
 func init() {
 	checks["C12"] = eng.Check{
-		Rule:        "SetWidth(e,w') for w' in 1..4 (and 5,8,255 on the wide space) and PurgeWidthGadgets(e) on every tree of the C09 spaces, plus chains SetWidth(SetWidth(e,w1),w2) (narrow then widen and the reverse; 6 width pairs on the small spaces, 2 pairs on every 4th (thorough: every) tree of the large ones), expected value = original cut to w1 and then adjusted to w2; result width and value (original adjusted to w') compared under 9 valuations; memory-load (key, address width, load width) lists compared for purge. Non-trivial = result structurally different from the input.",
+		Rule:        "SetWidth(e,w') for w' in 1..4 (on the wide space 1,8,9,17,255; thorough 1,5,8,9,16,17,254,255) and PurgeWidthGadgets(e) on every tree of the C09 spaces, plus chains SetWidth(SetWidth(e,w1),w2) (narrow then widen and the reverse; 6 width pairs on the small spaces, 2 pairs on every 4th (thorough: every) tree of the large ones), expected value = original cut to w1 and then adjusted to w2; result width and value (original adjusted to w') compared under 9 valuations; memory-load (key, address width, load width) lists compared for purge. Non-trivial = result structurally different from the input.",
 		Assumptions: []string{"semantic equality decided on 9 valuations with pseudo-random memory (a changed address changes the bytes read)"},
 		Run: func(r *eng.Run) {
 			forTrees(r, treeSpacesFor(r), func(ref treeRef, e expr.Expr) {
@@ -106,6 +106,9 @@ func init() {
 				ws := []int{1, 2, 3, 4}
 				if ref.Space == "wide" {
 					ws = []int{1, 5, 8, 9, 16, 17, 254, 255}
+					if r.Quick() {
+						ws = []int{1, 8, 9, 17, 255}
+					}
 				}
 				for _, w := range ws {
 					cases = append(cases, c12Case{Tree: ref, Op: "setwidth", W: w})
@@ -114,6 +117,9 @@ func init() {
 				pairs := [][2]int{{1, 2}, {1, 4}, {2, 4}, {2, 8}, {3, 4}, {4, 2}}
 				if ref.Space == "wide" {
 					pairs = [][2]int{{1, 9}, {8, 16}, {5, 255}, {16, 8}}
+					if r.Quick() {
+						pairs = [][2]int{{1, 9}, {16, 8}}
+					}
 				}
 				if ref.Space == "t2" || ref.Space == "const2" || ref.Space == "t3tiny" {
 					pairs = [][2]int{{1, 2}, {2, 4}}
